@@ -172,6 +172,13 @@ fn recover(w: &mut World, plan: &Plan) {
     }
     w.stat("recoveries");
     let img = w.sim.file_content(w.files[0]);
+    if std::env::var("QSIM_FINAL").is_ok() {
+        let h = qspec::parse_header(&img);
+        eprintln!("file header after recovery: {h:?}");
+        if let Some((_, snap)) = w.logical_image() {
+            eprintln!("in-RAM hdr l1 {:#x}/{}", snap.hdr_l1_offset, snap.hdr_l1_entries);
+        }
+    }
     let v = qspec::check_image(&img, false);
     if let Some((class, d)) = v.first_problem(true) {
         w.viol(
